@@ -19,7 +19,7 @@ import vlib, tracecheck
 from vlib import OUT, SPEC
 
 PID = "C18"
-MC_QUICK = ["thm23q", "thm11", "two23q", "two11q", "n7q", "n11q", "opt23q", "tamper23q"]
+MC_QUICK = ["thm23q", "two23q", "two11q", "n7q", "n11q", "opt23q", "tamper23q"]
 MC_THOROUGH = ["thm23", "thm47", "thm11", "thm7", "two23", "two23w", "two11", "n7", "n11", "n23", "opt23", "opt7",
                "tamper23", "tamper7"]
 
@@ -166,7 +166,7 @@ def run(tier, seed):
         return c, vlib.tlc("MC_OT", "MC_OT_%s.cfg" % c, workers=2 if quick else 4, timeout=900 if quick else 3300, xmx="3g" if quick else "8g")
     mcf = [pool.submit(mc, c) for c in (MC_QUICK if quick else MC_THOROUGH)]
     # ---- B: record and validate (the case generator of A runs meanwhile)
-    nexec, chunks = (480, 8) if quick else (4000, 16)
+    nexec, chunks = (480, 8) if quick else (8000, 16)
     merged = record(exe, seed, nexec, chunks)
     execs = tracecheck.split_executions(merged)
     vlib.log("recorded %d executions at %.0fs" % (len(execs), time.time() - ck.t0))
@@ -180,8 +180,14 @@ def run(tier, seed):
     ck.add_cases("tlc-cases", len(cases), set(nontrivial_key(c) for c in cases if c["sok"] or c["k"] == "t" or c.get("coll")))
     hs = [c for c in cases if c["k"] == "h" and c["sok"]]
     ts = [c for c in cases if c["k"] == "t" and not c["sok"]]
-    for c in hs[:2] + ts[:1] + [c for c in cases if c["k"] == "h" and not c["sok"]][:1]:
-        ck.sample({"tlc_case": c})
+    def pick(pred):
+        return next((c for c in cases if pred(c)), None)
+    for c in [pick(lambda c: c["k"] == "h" and c["sok"] and c["grp"][0] == 23 and c["var"] == "two"),
+              pick(lambda c: c["k"] == "h" and c["sok"] and c["var"] == "n" and c["grp"][0] >= 47 and 3 <= c["N"] <= 5),
+              pick(lambda c: c["k"] == "h" and not c["sok"] and c["grp"][0] == 23 and c["var"] == "n"),
+              pick(lambda c: c["k"] == "t" and not c["sok"] and c["grp"][0] == 23 and c["mut"] == "dupprev" and c["pos"] > 3)]:
+        if c is not None:
+            ck.sample({"tlc_case": c})
     ck.part("tlc-cases", honest_answered=len(hs), honest_refused=len([c for c in cases if c["k"] == "h" and not c["sok"]]),
             malformed_refused=len(ts), malformed_answered=len([c for c in cases if c["k"] == "t" and c["sok"]]),
             max_N=max(c["N"] for c in cases), groups=sorted(set(c["grp"][0] for c in cases)))
@@ -210,8 +216,22 @@ def run(tier, seed):
         elif r.distinct < 10:
             raise vlib.Infra("MC_OT %s explored only %d states" % (c, r.distinct))
     pool.shutdown()
-    if nB == 0 or not hs or not ts:
-        raise vlib.Infra("vacuous run: %d traces, %d answered cases, %d refused malformed cases" % (nB, len(hs), len(ts)))
+    # vacuity guards: the interesting antecedents must have occurred in this run
+    def opens_other(c):
+        return any(t != c["sigma"] and c["dec"][t] == c["M"][t] for t in range(c["N"]))
+    def sent(x):
+        return next((e for e in x if e["e"] == "Send"), None)
+    vac = {"traces": nB, "cases_answered": len(hs), "cases_malformed_refused": len(ts),
+           "cases_collision_refused": sum(1 for c in cases if c["k"] == "h" and c["coll"]),
+           "cases_curious_slot_opens": sum(1 for c in hs if opens_other(c)),
+           "cases_malformed_still_valid": sum(1 for c in cases if c["k"] == "t" and c["sok"]),
+           "exec_collision_refused": sum(1 for x in execs if x[0]["mode"] == "collide" and sent(x) and not sent(x)["ret"]),
+           "exec_zero_blinding": sum(1 for x in execs if x[0]["mode"] == "szero" and sent(x) and sent(x)["ret"]),
+           "exec_mitm_refused": sum(1 for x in execs if x[0]["mode"] == "mitm" and sent(x) and not sent(x)["ret"]),
+           "exec_mitm_answered": sum(1 for x in execs if x[0]["mode"] == "mitm" and sent(x) and sent(x)["ret"])}
+    ck.part("vacuity", **vac)
+    if min(vac.values()) == 0:
+        raise vlib.Infra("vacuous run: %s" % vac)
     ck.cov["rule"] = ("TLC BFS over OTProto.tla in the groups p=7,11,23 (every index, chooser coin, first-move mutation; sender coins "
                       "from a range) and the slot theorem over all (a,b,c,s,r,m); TLC-enumerated cases (OTGen.tla: all (a,b[,c]) in "
                       "p<=23, LCG-sampled from the seed elsewhere, N<=64) executed on NaorPinkasEOTP with dictated coins and compared "
